@@ -124,12 +124,12 @@ def text_pass_runs(ctx, n):
                 continue
             for rep in range(2):
                 N = rng.choice([1, 2, 3, 5])
-                ctl = shim.Control(sched=None, faults={}, rng=random.Random(rng.getrandbits(32)), p_done=rng.choice([0.0, 0.4, 1.0]),
-                                   wait_policy=rng.choice(['first', 'random']))
+                cp = {'seed': rng.getrandbits(32), 'p_done': rng.choice([0.0, 0.4, 1.0]), 'wait_policy': rng.choice(['first', 'random']), 'p_eager': rng.choice([0.0, 0.5, 1.0])}
+                ctl = shim.Control(sched=None, faults={}, rng=random.Random(cp['seed']), p_done=cp['p_done'], wait_policy=cp['wait_policy'], p_eager=cp['p_eager'])
                 obs = H.run_real_textpass(T.make(name, arg), {'a.c': text}, pred, N, ctl, Path(tempfile.mkdtemp(prefix='r-', dir=d)))
                 ctx.count()
                 done += 1
-                scen = {'kind': 'textpass', 'pass': name, 'arg': arg, 'text': text, 'pred': [tag, dens], 'N': N}
+                scen = {'kind': 'textpass', 'pass': name, 'arg': arg, 'text': text, 'pred': [tag, dens], 'N': N, 'schedule': cp}
                 if obs['outcome'] != 'ok':
                     ctx.report('parallel-run-raises', f'{name}::{arg} raised {obs["outcome"]}: {obs.get("error_text")}', scen)
                 elif obs['final']['a.c'] != ref_final:
@@ -182,7 +182,8 @@ def replay(ctx, obj):
         rp.write_text(obj['text'])
         loop = RefLoop(T.make(obj['pass'], obj['arg']), rp, lambda p: pred({'a.c': Path(p).read_text()}), d / 'ref', max_steps=3000)
         loop.run()
-        ctl = shim.Control(sched=None, faults={}, rng=random.Random(ctx.seed), p_done=0.4)
+        cp = obj.get('schedule') or {'seed': ctx.seed, 'p_done': 0.4, 'wait_policy': 'first', 'p_eager': 0.0}
+        ctl = shim.Control(sched=None, faults={}, rng=random.Random(cp['seed']), p_done=cp['p_done'], wait_policy=cp['wait_policy'], p_eager=cp['p_eager'])
         obs = H.run_real_textpass(T.make(obj['pass'], obj['arg']), {'a.c': obj['text']}, pred, obj['N'], ctl, d / 'run1')
         print('sequential:', repr(rp.read_text()), 'parallel:', repr(obs['final']['a.c']), obs['outcome'])
         if obs['outcome'] != 'ok' or obs['final']['a.c'] != rp.read_text():
